@@ -98,6 +98,13 @@ def run(check, tier):
                 fixed = dict(a=a, n=n, wrap=rnd.randrange(3), menu=sorted(set(h.QUICK_NUM_IDX + rnd.sample(h.NUM_IDX, 4) + [a])))
             jobs.append(dict(fn="rt_numeric_seq", fixed=fixed, timeout=t * 2 if quick else 1500,
                              key=f"numeric_seq:a={a}"))
+    # complex members next to (large) integers / floats / bools in lists, tuples and sets
+    jobs.append(dict(fn="rt_complex_seq__reach", timeout=60))
+    for a in (range(len(h.CSEQ_MENU)) if not quick else [1, 2, 5, 6] + rnd.sample(range(len(h.CSEQ_MENU)), 2)):
+        for kind in range(3):
+            for n in ((3,) if quick else (2, 3)):
+                jobs.append(dict(fn="rt_complex_seq", fixed=dict(a=a, kind=kind, n=n, wrap=rnd.randrange(3)), timeout=t * 2 if quick else 1500,
+                                 key=f"complex_seq:kind={kind}"))
     nleaf = len(sc.LEAVES)
     # leaves with a recorded known finding "leaf:<name>:in_container" are left out of the mixed-graph
     # harnesses (rt_leaf still reports them, as KNOWN-FINDING, and explores the rest of their space)
